@@ -1,8 +1,10 @@
 #!/bin/sh
 # usage: multiseed.sh <tier> <seed>...   runs every check at the given seeds; prints one line per run
+# CHECK_ORDER (optional): space separated list of check ids to run, in that order
 tier=$1; shift
+ids=${CHECK_ORDER:-"C01 C02 C03 C04 C05 C06 C07 C08 C09 C10 C11 C12 C13 C14 C15 C16 C17 C18 C19 C20"}
 for s in "$@"; do
-  for id in C01 C02 C03 C04 C05 C06 C07 C08 C09 C10 C11 C12 C13 C14 C15 C16 C17 C18 C19 C20; do
+  for id in $ids; do
     out=$(VERIF_SEED=$s ./check $id $tier 2>&1); rc=$?
     echo "seed=$s $id rc=$rc $(echo "$out" | grep -E '^(OK|VIOLATION|INCONCLUSIVE)' | head -2 | tr '\n' ' ' | cut -c1-220)"
   done
